@@ -182,9 +182,13 @@ static void catch_done (int i) {
   }
 }
 
+object_t *vm_fault_object;   /* if set, the fault position counts only the dispatches executed with this current_object */
+static long insn_obj;
+long vm_insn_in_object (void) { return insn_obj; }
 static void hook (void) {
   vm_insn++;
   if (!armed) return;
+  if (vm_fault_object && current_object == vm_fault_object) insn_obj++;
   /* catch monitor */
   while (nmon && mon[nmon - 1].s.csp > csp) nmon--;
   if (nmon && mon[nmon - 1].s.csp == csp && mon[nmon - 1].resume == pc) { catch_done (nmon - 1); nmon--; }
@@ -196,7 +200,7 @@ static void hook (void) {
     mon[nmon].expect = 0;
     nmon++;
   }
-  if (vm_fault_at && vm_insn == vm_fault_at && !vm_fired) {
+  if (vm_fault_at && (vm_fault_object ? (current_object == vm_fault_object && insn_obj == vm_fault_at) : vm_insn == vm_fault_at) && !vm_fired) {
     vm_fired = 1;
     if (vw_ec_top_is_catch ()) {
       vm_fault_ctx = VM_CTX_CATCH;
@@ -216,7 +220,7 @@ static void hook (void) {
 }
 
 void vm_hook_arm (long fault_at, int mode, int driver_ec_depth) {
-  vm_insn = 0; vm_fault_at = fault_at; vm_inj_mode = mode; vm_fired = 0; vm_fault_ctx = VM_CTX_NONE;
+  vm_insn = 0; insn_obj = 0; vm_fault_at = fault_at; vm_inj_mode = mode; vm_fired = 0; vm_fault_ctx = VM_CTX_NONE;
   vm_catch_seen = vm_catch_err = vm_expect_done = 0; nmon = 0; vm_ncval = 0; expect_csp = 0;
   driver_depth = driver_ec_depth;
   if (mode == VM_INJ_THROW) {
